@@ -38,7 +38,8 @@ patterns ↦ values) makes the subgraph ending at `root` an instance of the patt
 domain, attribute patterns, input positions with the trailing-`None` convention, repeated
 variables, constants within `close`, output indices; every attached checker and the condition
 accepted; and with `remove_nodes` no intermediate matched value is a graph output or used outside
-the match.  The full statement (no side conditions) is refuted by `match_sound_full_refuted_*`. -/
+the match.  The full statement (no side conditions) is refuted for the code before the repairs by
+`match_sound_extra_outputs_prefix_refuted` (C06-F1) and `match_sound_or_prefix_refuted` (C06-F3/F4). -/
 theorem match_sound_partial (E : Env) (root : NodeId) (rm : Bool) (r : Result)
     (hno : E.p.dispOk = true) (htopo : E.p.topoDeep) (har : E.fixF1 = true ∨ OutputArityOk E.p E.g)
     (h : patternMatch E root rm = some r) :
@@ -173,8 +174,12 @@ node after the first has an operator identifier and no host node carries an over
 output nodes and no opaque checker rejects, then every instance is reported: the instance's own
 node combination is among the candidates `itertools.product` goes through, `_multi_match` succeeds
 on it, hence `SimplePatternMatcher.match` and `Pattern.match` report a match (possibly on an earlier
-succeeding combination, cf. `match_deterministic`).  Soundness for several output nodes is already
-part of `match_sound_partial`. -/
+succeeding combination, cf. `match_deterministic`).  Restrictions, all hypotheses of the statement: only
+`remove_nodes=False` (nothing is said about the removability test on the reported combination); OR-free
+(`noOr`) and `topo`; `OutputsOfOutputNodes`; `CandidatesComplete`; no opaque checker rejects (`checksOk`, needed
+for the `Pattern.match` half); named variables carry no checker or the code is before repair F2
+(`fixF2 = false ∨ NamedVarsUnchecked`); `fixF1` or `OutputArityOk`.  Soundness for several output nodes is
+part of `match_sound` / `match_sound_partial`. -/
 theorem match_complete_multi_partial (E : Env) (A : Assign) (root : NodeId)
     (hno : E.p.noOr = true) (htopo : E.p.topo) (hnc : E.fixF2 = false ∨ NamedVarsUnchecked E.p)
     (har : E.fixF1 = true ∨ OutputArityOk E.p E.g)
@@ -280,8 +285,12 @@ theorem commute_variant_instances_partial (E : Env) (fix7a fix7c : Bool) (p q : 
 
 /-- **With `commute=True` the matches are exactly those of the pattern under swaps of commutative operands**:
 some variant of `commute` reports a match at `root` iff, for some swap mask, the subgraph ending at `root` is
-an instance (with accepting checkers) of the pattern with those operands exchanged.  For `namedLeaves`
-patterns whose variants satisfy the hypotheses of `match_iff_instance_partial` (`IffHyps`). -/
+an instance (with accepting checkers) of the pattern with those operands exchanged.  Stated for
+`remove_nodes=False` and only for a narrow fragment: `namedLeaves` patterns *every swap variant of which*
+satisfies the whole bundle `IffHyps` (the hypotheses of `match_iff_instance_partial`): committed merge
+(`fixF3`), no tagged dispatch-OR (`backOk`), mutually exclusive BacktrackingOr alternatives and no checker on
+named variables (`exclOk`), acyclic encoding (`topoDeep`), `fixF1` or `OutputArityOk`, exactly one output node
+whose outputs are the pattern outputs (`OutputsOfRoot`). -/
 theorem commute_matches_iff_swap_instance_partial (E : Env) (root : NodeId) (np0 : NPId)
     (fix7a fix7b fix7c : Bool) (l : List GPat) (hn : E.p.namedLeaves = true)
     (h : commute fix7a E.p fix7b fix7c = .ok l)
@@ -632,9 +641,11 @@ theorem match_complete_leftmost_exc_partial (E : Env) (A : Assign) (root : NodeI
   exact ⟨r, by rw [matchX_no_exception_partial E root false hf8 hbk, h1],
     _, matchX_no_exception_partial E root true hf8 hbk, h2⟩
 
-/-- **`RewriteRule.commute` hands every variant the rule's own `remove_nodes`** (and nothing else of the rule
-changes what is matched): the variant rules are the variants of `GraphPattern.commute()`, in order, each with
-`remove_nodes` of the rule it was made from.  No hypotheses. -/
+/-- `RewriteRule.commute` hands every variant the rule's own `remove_nodes`: the variant rules are the variants of
+`GraphPattern.commute()`, in order, each with `remove_nodes` of the rule it was made from.  No hypotheses — and no
+depth: this is the *definition* of the model's `Rule.commute` read back (proof by unfolding).  Its content is the
+restatement of `replace_pattern` in `OV.Model.C06Rule`, which the tie compares with the code on every commute
+case; it is a lemma for `rule_commute_matches_iff_partial`, not a result about the matcher. -/
 theorem rule_commute_variants (fix7a fix7b fix7c : Bool) (r : Rule) (rs : List Rule)
     (h : Rule.commute fix7a r fix7b fix7c = .ok rs) :
     ∃ l, commute fix7a r.p fix7b fix7c = .ok l ∧ rs.map (·.p) = l ∧ ∀ v ∈ rs, v.removeNodes = r.removeNodes := by
@@ -654,7 +665,9 @@ theorem rule_commute_variants (fix7a fix7b fix7c : Bool) (r : Rule) (rs : List R
 iff the subgraph is an instance of the pattern under some swap of the operands of its commutative nodes.  In
 particular the removability side condition plays no role for any variant.  Composition of `rule_commute_variants`,
 `commute_is_swap_variants_partial`, `commute_matches_iff_swap_instance_partial` and `matchX_no_exception_partial`;
-hypotheses as there (named-leaf patterns whose variants satisfy `IffHyps`). -/
+hypotheses as there, i.e. a narrow fragment: `namedLeaves` patterns every swap variant of which satisfies the whole
+bundle `IffHyps` (`fixF3`, `backOk`, `exclOk`, `topoDeep`, `fixF1` or `OutputArityOk`, one output node with
+`OutputsOfRoot`), plus `fixF8`. -/
 theorem rule_commute_matches_iff_partial (E : Env) (root : NodeId) (np0 : NPId)
     (fix7a fix7b fix7c : Bool) (rs : List Rule) (hf8 : E.fixF8 = true) (hn : E.p.namedLeaves = true)
     (h : Rule.commute fix7a { p := E.p, removeNodes := false } fix7b fix7c = .ok rs)
